@@ -259,7 +259,7 @@ def check(ctx):
         "algorithm variant checked by TLC: Fixes = %s, signed findings = %s" % (sorted(FIXES), sorted(KNOWN)),
     ]
     # (1) exhaustive
-    c = consts(2, 1, 5) if thorough else consts(1, 1, 4)
+    c = consts(2, 1, 4) if thorough else consts(1, 1, 4)   # (2 values, 5 calls: 9.4M states, 11 min -- run by hand)
     cfg = os.path.join(tlc.scratch(), "ex.cfg")
     tlc.write_cfg(cfg, c, view="view", properties=PROPS, invariants=["RemOnlyForCached"],
                   constraints=["Bound"])
